@@ -13,7 +13,8 @@ use std::time::Duration;
 
 fn free_port() -> u16 { TcpListener::bind("127.0.0.1:0").unwrap().local_addr().unwrap().port() }
 
-fn start(timeout: Option<Duration>) -> SocketAddr {
+fn start(timeout: Option<Duration>) -> (SocketAddr, connlib::Mon) {
+    let (moncfg, mon) = connlib::mon_new();
     let port = free_port();
     let addr: SocketAddr = format!("127.0.0.1:{}", port).parse().unwrap();
     std::thread::spawn(move || {
@@ -24,10 +25,11 @@ fn start(timeout: Option<Duration>) -> SocketAddr {
             .with_stateless_route("/empty", |_r: Request| Response::empty(StatusCode::OK))
             .with_stateless_route("/panic", |_r: Request| -> Response { panic!("handler panic (scripted)") })
             .with_cors_config("/cors", Cors::wildcard())
-            .with_connection_timeout(timeout);
+            .with_connection_timeout(timeout)
+            .with_monitor(moncfg);
         let _ = app.run(addr);
     });
-    for _ in 0..200 { if TcpStream::connect(addr).is_ok() { return addr; } std::thread::sleep(Duration::from_millis(10)); }
+    for _ in 0..200 { if TcpStream::connect(addr).is_ok() { return (addr, mon); } std::thread::sleep(Duration::from_millis(10)); }
     panic!("app did not start");
 }
 
@@ -42,10 +44,12 @@ fn main() {
     let mut hs = vec![];
     for _ in 0..par {
         let q = queue.clone();
+        let (plain, timed) = (plain.clone(), timed.clone());
         hs.push(std::thread::spawn(move || loop {
             let job = { q.lock().unwrap().pop() };
             let job = match job { Some(j) => j, None => break };
-            let rec = connlib::run_job(&job, if job.timeout { timed } else { plain }, seed);
+            let (a, m) = if job.timeout { &timed } else { &plain };
+            let rec = connlib::run_job(&job, *a, seed, Some(m));
             util::out_line(&rec);
         }));
     }
